@@ -1,6 +1,26 @@
-//! algorder operations (stub; filled in by the area owner).
+//! C14/C15: number-field elements (src/algebraic.rs), orders, multiplication tables.
+use crate::ops::poly::{qp, tqp, zp};
 use crate::term::*;
+use num::traits::Pow;
+use rust_number_theory::algebraic::Algebraic;
 
-pub fn dispatch(_op: &str, _a: &[Term]) -> Option<Term> {
-    None
+fn alg(f: &Term, e: &Term) -> Algebraic {
+    // with_expr has a debug_assert on the degree; build the struct directly as the library's own constructors do
+    Algebraic {
+        min_poly: zp(f),
+        expr: qp(e),
+    }
+}
+
+pub fn dispatch(op: &str, a: &[Term]) -> Option<Term> {
+    Some(match op {
+        "alg_add" => tqp(&(&alg(&a[0], &a[1]) + &alg(&a[0], &a[2])).expr),
+        "alg_sub" => tqp(&(&alg(&a[0], &a[1]) - &alg(&a[0], &a[2])).expr),
+        "alg_mul" => tqp(&(&alg(&a[0], &a[1]) * &alg(&a[0], &a[2])).expr),
+        "alg_pow" => tqp(&Pow::pow(&alg(&a[0], &a[1]), a[2].int()).expr),
+        "alg_pow_u64" => tqp(&Pow::pow(&alg(&a[0], &a[1]), a[2].u64()).expr),
+        "alg_theta_pow" => tqp(&Pow::pow(&Algebraic::new(zp(&a[0])), a[1].int()).expr),
+        "alg_as_coefs" => trats(&alg(&a[0], &a[1]).as_coefs()),
+        _ => return None,
+    })
 }
